@@ -106,3 +106,7 @@ package controllers
 //@   loop 1 invariant !tdPending()
 //@   loop 1 invariant gomem_unchanged()
 //@   ensures gomem_unchanged()
+
+//@ props C04
+//@ func package-operator.run/internal/controllers.FreeCacheAndRemoveFinalizer
+//@   ensures tdPending() == old(tdPending())
